@@ -115,11 +115,14 @@ pub struct SelfFold {
     pub ids: Vec<Id>,
     /// incarnation values taken per identity (same indexing as ids)
     pub incs: Vec<Vec<u16>>,
+    /// the instance is defunct (left, or told it is down without being able to renew):
+    /// it no longer refutes suspicions
+    pub defunct: bool,
 }
 
 impl SelfFold {
-    pub fn new(id: Id, inc: u16) -> Self {
-        SelfFold { id, inc, events: vec![], ids: vec![id], incs: vec![vec![inc]] }
+    pub fn new(id: Id, inc: u16, defunct: bool) -> Self {
+        SelfFold { id, inc, events: vec![], ids: vec![id], incs: vec![vec![inc]], defunct }
     }
     fn death(&mut self) {
         match renewed_ok(&self.id) {
@@ -129,8 +132,12 @@ impl SelfFold {
                 self.inc = 0;
                 self.ids.push(n);
                 self.incs.push(vec![0]);
+                self.defunct = false;
             }
-            None => self.events.push(SelfEvent::Defunct { id: self.id }),
+            None => {
+                self.events.push(SelfEvent::Defunct { id: self.id });
+                self.defunct = true;
+            }
         }
     }
     pub fn feed(&mut self, u: &Member<Id>) {
@@ -140,6 +147,10 @@ impl SelfFold {
         match u.state() {
             State::Alive => {}
             State::Suspect => {
+                if self.defunct {
+                    // a defunct instance stays silent
+                    return;
+                }
                 let m = u.incarnation().max(self.inc);
                 if m == u16::MAX {
                     self.death();
@@ -176,15 +187,16 @@ pub struct FoldOut {
     pub tu_acted: bool,
 }
 
-pub fn self_fold(rec: &CallRec, pres: &Presented, start_id: Id, start_inc: u16, connected_pre: bool) -> FoldOut {
+pub fn self_fold(rec: &CallRec, pres: &Presented, start_id: Id, start_inc: u16, connected_pre: bool, defunct_pre: bool) -> FoldOut {
     use foca::OwnedNotification as N;
-    let mut f = SelfFold::new(start_id, start_inc);
+    let mut f = SelfFold::new(start_id, start_inc, defunct_pre);
     let mut tu_due = false;
     let mut tu_acted = false;
     match (&rec.op, pres) {
         (Op::Leave, _) => {
             // declares itself down; no renewal on leave
             f.events.push(SelfEvent::Defunct { id: f.id });
+            f.defunct = true;
         }
         (_, Presented::Apply { updates, .. }) => {
             for u in updates {
